@@ -619,10 +619,47 @@ def _(M, a):
     return None
 
 
+# sync.Map: the state lives in field 0 of the struct as a GoMap
+def _syncmap(M, p):
+    st = M.load(p)
+    if not isinstance(st[0], GoMap):
+        if M.mut_hook is not None:
+            M.mut_hook(M, 'syncmap', p.cell, '')
+        st[0] = GoMap()
+    return st[0]
+
+
 @intr('(*sync.Map).Load')
 def _(M, a):
-    # strcase's acronym table: empty in fin-protoc (ConfigureAcronym is never called)
-    return (None, False)
+    st = M.load(a[0])
+    if not isinstance(st[0], GoMap):
+        return (None, False)
+    e = st[0].get(a[1])
+    return (e[1], True) if e is not None else (None, False)
+
+
+@intr('(*sync.Map).Store')
+def _(M, a):
+    _syncmap(M, a[0]).set(a[1], a[2])
+    return None
+
+
+@intr('(*sync.Map).LoadOrStore')
+def _(M, a):
+    m = _syncmap(M, a[0])
+    e = m.get(a[1])
+    if e is not None:
+        return (e[1], True)
+    m.set(a[1], a[2])
+    return (a[2], False)
+
+
+@intr('(*sync.Map).Delete')
+def _(M, a):
+    st = M.load(a[0])
+    if isinstance(st[0], GoMap):
+        st[0].delete(a[1])
+    return None
 
 
 def install(M):
